@@ -47,6 +47,9 @@ type Root struct {
 	// interface method such as Read, a function outside the module): its bytes are then whatever
 	// that code left there, not what the analysed code wrote or the zero value
 	extVer int
+	// spare: made with an explicit capacity larger than its length (make([]T, n, c)): ln is the
+	// capacity, and an append that provably fits writes into this root
+	spare bool
 }
 
 // ASlice is a view [off, off+ln) of a root.
